@@ -917,12 +917,45 @@ func (e *Engine) execLoop(st *state, fr *frame, h, prev *ssa.BasicBlock, body ma
 	ist := st.clone()
 	ist.events = nil
 	base := len(st.conds)
-	// loop-carried memory: stores in the body to addresses defined outside it
+	// loop-carried memory: stores in the body to addresses defined outside it. A slice-typed cell is treated like a
+	// header phi (`p.List = append(p.List, x)` accumulates in memory exactly as `list = append(list, x)` does in a
+	// variable); anything else is unknown inside and after the loop.
+	type memPhi struct {
+		addr *Val
+		typ  types.Type
+		init *Val
+		lv   *Val
+	}
+	var memPhis []*memPhi
+	seenCell := map[string]bool{}
 	for blk := range body {
 		for _, in := range blk.Instrs {
 			if s, ok := in.(*ssa.Store); ok {
-				if def, ok := s.Addr.(ssa.Instruction); !ok || !body[def.Block()] {
-					a := e.val(fr, s.Addr)
+				def, isInstr := s.Addr.(ssa.Instruction)
+				var a *Val
+				if !isInstr || !body[def.Block()] {
+					a = e.val(fr, s.Addr)
+				} else if fa, isFA := s.Addr.(*ssa.FieldAddr); isFA {
+					// &x.f computed inside the body for an x that does not change in the loop: the same cell every time
+					if xd, xIsInstr := fa.X.(ssa.Instruction); !xIsInstr || !body[xd.Block()] {
+						if stt, okS := fa.X.Type().Underlying().(*types.Pointer).Elem().Underlying().(*types.Struct); okS {
+							a = &Val{Op: "field", ID: fa.Field, Name: stt.Field(fa.Field).Name(), Args: []*Val{e.val(fr, fa.X)}, Type: fa.Type()}
+						}
+					}
+				}
+				if a != nil {
+					if seenCell[a.Key()] {
+						continue
+					}
+					seenCell[a.Key()] = true
+					if _, isSlice := s.Val.Type().Underlying().(*types.Slice); isSlice {
+						init := e.load(ist, a, s.Val.Type())
+						mp := &memPhi{addr: a, typ: s.Val.Type(), init: init}
+						mp.lv = &Val{Op: "loopvar", ID: lid, Name: "mem:" + a.Key(), Type: s.Val.Type(), Args: []*Val{init}}
+						memPhis = append(memPhis, mp)
+						ist.mem[a.Key()] = memEntry{Addr: a, V: mp.lv}
+						continue
+					}
 					ist.mem[a.Key()] = memEntry{Addr: a, V: &Val{Op: "unknown", ID: e.id(), Name: "loop-carried", Type: s.Val.Type()}}
 				}
 			}
@@ -951,6 +984,11 @@ func (e *Engine) execLoop(st *state, fr *frame, h, prev *ssa.BasicBlock, body ma
 				}
 				if r := addrRoot(me.Addr); r != nil && (r.Op == "alloc" || r.Op == "makeslice") {
 					arm.Local = append(arm.Local, &Event{Kind: EvStore, Dst: me.Addr, Src: me.V})
+				}
+			}
+			for _, mp := range memPhis {
+				if me, ok := o.st.mem[mp.addr.Key()]; ok {
+					arm.Next[mp.lv.Name] = me.V
 				}
 			}
 			for _, pi := range phis {
@@ -1047,7 +1085,24 @@ func (e *Engine) execLoop(st *state, fr *frame, h, prev *ssa.BasicBlock, body ma
 	// loop-out values of header phis
 	loopOut := map[*ssa.Phi]*Val{}
 	for _, pi := range phis {
-		loopOut[pi.phi] = e.loopOutVal(pi.phi, pi.init, pi.lv, iters, count, lid, lc)
+		loopOut[pi.phi] = e.loopOutVal(pi.phi.Type(), pi.init, pi.lv, iters, count, lid, lc)
+	}
+	// ... and of the slice cells carried in memory: an accumulation that is recognised, or unknown
+	memOut := func(nst *state, nfr *frame, complete bool, in ssa.Instruction) {
+		for _, mp := range memPhis {
+			out := &Val{Op: "unknown", ID: e.id(), Name: "loop-carried", Type: mp.typ}
+			if complete {
+				if v := e.loopOutVal(mp.typ, mp.init, mp.lv, iters, count, lid, lc); v.Op == "collect" || v.Key() == mp.init.Key() {
+					out = v
+				}
+			}
+			nst.mem[mp.addr.Key()] = memEntry{Addr: mp.addr, V: out}
+			if r := addrRoot(mp.addr); out.Op == "collect" && (r == nil || (r.Op != "alloc" && r.Op != "makeslice")) {
+				// what the cell holds after the loop, as one store (the per-iteration stores are inside the REP)
+				ev := &Event{ID: e.id(), Kind: EvStore, Dst: mp.addr, Src: out, Fn: fr.fn, Site: fr.site, Pos: firstPos(h), NCond: len(nst.conds)}
+				nst.events = append(nst.events, ev)
+			}
+		}
 	}
 	// exits of an effect-free loop that reach the same block are one outcome: the header phis take their
 	// loop-exit value, whichever test ended the loop
@@ -1121,6 +1176,7 @@ func (e *Engine) execLoop(st *state, fr *frame, h, prev *ssa.BasicBlock, body ma
 		for k, v := range o.fr.env {
 			nfr.env[k] = v
 		}
+		memOut(nst, nfr, true, nil)
 		for _, pi := range phis {
 			nfr.env[pi.phi] = loopOut[pi.phi]
 			// the value carried to the next iteration is, after the last iteration, the loop-exit value
@@ -1152,7 +1208,9 @@ func (e *Engine) execLoop(st *state, fr *frame, h, prev *ssa.BasicBlock, body ma
 		if early {
 			nst.events = append(nst.events, o.st.events...)
 			nst.conds = append([]Cond(nil), o.st.conds...)
+			memOut(nst, nfr, false, nil)
 		} else {
+			memOut(nst, nfr, true, nil)
 			if fillS != nil {
 				nst.content[fillS.Key()] = fillC
 			}
@@ -1172,6 +1230,7 @@ func (e *Engine) execLoop(st *state, fr *frame, h, prev *ssa.BasicBlock, body ma
 		nst.events = append(nst.events, ev)
 		nst.events = append(nst.events, o.st.events...)
 		nst.conds = append([]Cond(nil), o.st.conds...)
+		memOut(nst, nil, false, nil)
 		o2 := *o
 		o2.st = nst
 		if o2.kind == oIterEnd || o2.kind == oLoopExit {
@@ -1247,6 +1306,24 @@ func (e *Engine) tripCount(h *ssa.BasicBlock, ifr *frame, lc *loopCtx, iters []*
 			return unknown, ""
 		}
 		lv = a.Sym[k]
+	}
+	if lv.Op == "len" && len(lv.Args) == 1 && lv.Args[0].Op == "loopvar" && lv.Args[0].ID == lc.id && !down && len(iters) > 0 && len(lv.Args[0].Args) == 1 {
+		// `for len(items) < n { …; items = append(items, x) }`: the length of the slice being built is the counter
+		sl := lv.Args[0]
+		for _, it := range iters {
+			n := it.Next[sl.Name]
+			if n == nil || n.Op != "call" || n.Name != "append" || len(n.Args) != 2 || n.Args[0].Key() != sl.Key() {
+				return unknown, ""
+			}
+			if el := stripCT(n.Args[1]); el.Op != "arraylit" || len(el.Args) != 1 {
+				return unknown, ""
+			}
+		}
+		first := affConst(a.C).Add(affOf(mkLen(sl.Args[0])), 1)
+		if first.Top {
+			return unknown, ""
+		}
+		return affToVal(affOf(bound).Add(first, -1)), "counted"
 	}
 	if lv.Op != "loopvar" || lv.ID != lc.id {
 		return unknown, ""
@@ -1328,14 +1405,20 @@ func fillLoop(iters []*Arm, count *Val, lid int) (*Val, *Val) {
 		return nil, nil
 	}
 	var store *Event
+	reads := false // the iteration also reads from a buffer: `s[i], err = Read(buf)` fills s with what the iterations read
 	for _, ev := range iters[0].Events {
 		switch ev.Kind {
-		case EvPanicSite:
+		case EvPanicSite, EvAlloc, EvLen:
 		case EvStore:
 			if store != nil {
 				return nil, nil
 			}
 			store = ev
+		case EvReadInt, EvReadBytes, EvObj, EvRep, EvAlt:
+			if ev.Failed {
+				return nil, nil
+			}
+			reads = true
 		default:
 			return nil, nil
 		}
@@ -1357,6 +1440,35 @@ func fillLoop(iters []*Arm, count *Val, lid int) (*Val, *Val) {
 	bulk := false
 	var bulkW *Val
 	var bulkOrd string
+	if reads {
+		// element i is what iteration i read: the same accumulation as `s = append(s, v)` onto an empty slice
+		a := affOf(idx)
+		var lv *Val
+		if a.Top || len(a.Term) != 1 {
+			return nil, nil
+		}
+		for k, c := range a.Term {
+			if c != 1 {
+				return nil, nil
+			}
+			lv = a.Sym[k]
+		}
+		if !isLV(lv) || len(lv.Args) != 1 {
+			return nil, nil
+		}
+		if init, isC := lv.Args[0].Int64(); !isC || init+a.C != 0 {
+			return nil, nil
+		}
+		if next := iters[0].Next[lv.Name]; next == nil {
+			return nil, nil
+		} else if k, ok := affOf(next).Add(affOf(lv), -1).IsConst(); !ok || k != 1 {
+			return nil, nil
+		}
+		if !affOf(count).Equal(affOf(mkLen(S))) || !store.Src.Contains(func(x *Val) bool { return x.Op == "wire" || x.Op == "alloc" || x.Op == "collect" }) {
+			return nil, nil
+		}
+		return S, &Val{Op: "collect", ID: lid, Args: []*Val{mkNil(S.Type), {Op: "arraylit", Args: []*Val{store.Src}}, count}, Type: S.Type}
+	}
 	if store.Src.Contains(func(x *Val) bool { return isLV(x) || x.Op == "wire" || x.Op == "elem" }) {
 		// s[i] = ByteOrder.UintN(W[k*i:]) (or W[k*i : k*i+k]) with k the size of the number and of s's elements: s is
 		// the sequence of numbers that W holds
@@ -1498,7 +1610,7 @@ func narrows(next, lv *Val) bool {
 	return loK+hiK >= 1
 }
 
-func (e *Engine) loopOutVal(phi *ssa.Phi, init, lv *Val, iters []*Arm, count *Val, lid int, lc *loopCtx) *Val {
+func (e *Engine) loopOutVal(phiType types.Type, init, lv *Val, iters []*Arm, count *Val, lid int, lc *loopCtx) *Val {
 	// append accumulation: next = append(lv, elems)
 	if len(iters) > 0 {
 		var elem *Val
@@ -1527,18 +1639,18 @@ func (e *Engine) loopOutVal(phi *ssa.Phi, init, lv *Val, iters []*Arm, count *Va
 			return init
 		}
 		if ok && elem != nil {
-			return &Val{Op: "collect", ID: lid, Args: []*Val{init, elem, count}, Type: phi.Type()}
+			return &Val{Op: "collect", ID: lid, Args: []*Val{init, elem, count}, Type: phiType}
 		}
 		// staged output: next = ByteOrder.AppendUintN(lv, x) on every iteration
 		if len(iters) == 1 {
 			if n := iters[0].Next[lv.Name]; n != nil && n.Op == "call" && len(n.Args) == 2 && n.Args[0].Key() == lv.Key() {
 				if ib := appendedInt(n); ib != nil && count != nil && !iters[0].hasEffects() {
-					return &Val{Op: "stagedrep", ID: lid, Args: []*Val{init, ib, count}, Type: phi.Type()}
+					return &Val{Op: "stagedrep", ID: lid, Args: []*Val{init, ib, count}, Type: phiType}
 				}
 			}
 		}
 	}
-	out := &Val{Op: "loopout", ID: lid, Name: lv.Name, Args: []*Val{init}, Type: phi.Type(), Aux: lv.Aux}
+	out := &Val{Op: "loopout", ID: lid, Name: lv.Name, Args: []*Val{init}, Type: phiType, Aux: lv.Aux}
 	if lc.ctrVar != nil && lc.ctrVar.Key() == lv.Key() && lc.ctrOff == 0 && lc.ctrBound != nil {
 		// the counter of a counted loop: on exit it lies between its initial value and the bound
 		out.Args = append(out.Args, lc.ctrBound)
